@@ -216,7 +216,7 @@ func c15Record(in, out string) error {
 							continue
 						}
 						events = append(events, Event{"event": "Md", "writer": w, "el": absEl(el), "off": c.Off, "mx": c.Mx,
-							"got": c15Tilde(c15Locate(blocks, el)), "md": truncate(o.Md, 1500)})
+							"got": c15Tilde(c15Locate(blocks, el)), "md": c15Truncate(o.Md, 1500)})
 					}
 				}
 			}
@@ -230,7 +230,7 @@ func c15Tilde(v interface{}) interface{} {
 	return json.RawMessage(strings.ReplaceAll(string(mustJSON(v)), "\u00e9", "~u"))
 }
 
-func truncate(s string, n int) string {
+func c15Truncate(s string, n int) string {
 	if len(s) > n {
 		return s[:n] + "..."
 	}
